@@ -47,21 +47,28 @@ func (r Rel) Flip() Rel {
 	return Rel{r.Y, r.X, op}
 }
 
-// IfEdges lists both edges of every If-terminated block of fn.
+// IfEdges lists both edges of every If-terminated block of fn and of the
+// helpers expanded into it (region.go): a test moved into a helper is still a
+// test on the paths of fn.
 func IfEdges(fn *ssa.Function) []Edge {
 	var out []Edge
-	for _, b := range fn.Blocks {
-		if BlockIf(b) != nil {
-			out = append(out, Edge{b, 0}, Edge{b, 1})
+	for _, g := range RegionOf(fn).Fns {
+		for _, b := range g.Blocks {
+			if BlockIf(b) != nil {
+				out = append(out, Edge{b, 0}, Edge{b, 1})
+			}
 		}
 	}
 	return out
 }
 
-// EdgesWhere returns the edges of fn whose relation (in either orientation)
-// satisfies pred.
+// EdgesWhere returns the edges of fn's region whose relation (in either
+// orientation) satisfies pred. In helpers the relation is also offered with
+// parameters replaced by the arguments of the helper's single call site, so a
+// predicate about a value of fn recognises it after it was passed down.
 func EdgesWhere(fn *ssa.Function, pred func(r Rel) bool) map[Edge]bool {
 	out := map[Edge]bool{}
+	rg := RegionOf(fn)
 	for _, e := range IfEdges(fn) {
 		r, ok := EdgeRel(e)
 		if !ok {
@@ -69,25 +76,39 @@ func EdgesWhere(fn *ssa.Function, pred func(r Rel) bool) map[Edge]bool {
 		}
 		if pred(r) || pred(r.Flip()) {
 			out[e] = true
+			continue
+		}
+		if e.From.Parent() != fn {
+			cr := Rel{rg.Canon(r.X), rg.Canon(r.Y), r.Op}
+			if (cr.X != Strip(r.X) || cr.Y != Strip(r.Y)) && (pred(cr) || pred(cr.Flip())) {
+				out[e] = true
+			}
 		}
 	}
 	return out
 }
 
 // BoolEdgesWhere returns the edges on which a boolean value satisfying isV is
-// true (want=true) or false (want=false).
+// true (want=true) or false (want=false), over fn's region.
 func BoolEdgesWhere(fn *ssa.Function, isV func(ssa.Value) bool, want bool) map[Edge]bool {
 	out := map[Edge]bool{}
-	for _, b := range fn.Blocks {
-		ifi := BlockIf(b)
-		if ifi == nil {
-			continue
+	rg := RegionOf(fn)
+	for _, g := range rg.Fns {
+		isVg := isV
+		if g != fn {
+			isVg = func(v ssa.Value) bool { return isV(v) || isV(rg.Canon(v)) }
 		}
-		if s, ok := BoolTrueSucc(ifi, isV); ok {
-			if want {
-				out[Edge{b, s}] = true
-			} else {
-				out[Edge{b, 1 - s}] = true
+		for _, b := range g.Blocks {
+			ifi := BlockIf(b)
+			if ifi == nil {
+				continue
+			}
+			if s, ok := BoolTrueSucc(ifi, isVg); ok {
+				if want {
+					out[Edge{b, s}] = true
+				} else {
+					out[Edge{b, 1 - s}] = true
+				}
 			}
 		}
 	}
